@@ -118,7 +118,12 @@ Kill ==
   /\ IF ~runnerSet
      THEN UNCHANGED <<clientBuilt, exitedFlag, kills, proc, waitDone, tmpdir, runnerSet>>
      ELSE /\ IF addrSet /\ proc = "alive"
-             THEN clientBuilt' = TRUE /\ UNCHANGED kills          \* graceful: quit request, plugin exits
+             THEN \* graceful: quit request, plugin exits.  A plugin that exits the instant it has
+                  \* seen the request can take the connection down while the host still waits for
+                  \* its own write to be acknowledged; the request then counts as failed and the
+                  \* (already exiting) process is force-killed as well.  Either way the request
+                  \* was delivered first (TraceLifecycle checks that on the logged quit_seen).
+                  clientBuilt' = TRUE /\ kills' \in {kills, kills + 1}
              ELSE IF addrSet
              THEN \* the plugin is already gone: whether the close request on the dead connection
                   \* counts as failed (force kill of a dead process) or not is immaterial
